@@ -315,6 +315,21 @@ func FamilyNest(ts TmplSpec, depth3 bool) []*Skeleton {
 	add("items.cousins", J{"allOf": A{p1, merge(J{"prefixItems": A{true}}, ui, J{"maxItems": 1})}})
 	add("items.ref", merge(J{"$ref": "#/$defs/d", "$defs": J{"d": p2}}, ui))
 	add("items.child-location", merge(J{"prefixItems": A{merge(p1, ui)}}, J{"unevaluatedItems": lInt}))
+	// trivial subschemas (true, {}, decorated-empty) still produce annotations
+	for _, tv := range []struct {
+		n string
+		v any
+	}{{"true", true}, {"empty", J{}}, {"title", J{"title": "t"}}} {
+		add("items.contains-"+tv.n, merge(J{"contains": tv.v}, ui))
+		add("items.contains-"+tv.n+"-under-allOf", merge(J{"allOf": A{J{"contains": tv.v, "minContains": 0}}}, ui))
+		add("items.items-"+tv.n, merge(J{"items": tv.v}, ui))
+		add("items.prefix-"+tv.n, merge(J{"prefixItems": A{tv.v}}, ui))
+		add("props-"+tv.n, merge(J{"properties": J{"a": tv.v}, "patternProperties": J{"^b": tv.v}}, up))
+		add("addl-"+tv.n+"-under-anyOf", merge(J{"anyOf": A{J{"additionalProperties": tv.v}}}, up))
+		add("if-"+tv.n, merge(J{"if": tv.v, "then": pa}, up))
+		add("uneval-"+tv.n+"-nested", merge(J{"allOf": A{J{"unevaluatedProperties": tv.v}}}, up))
+	}
+	add("items.contains-false", merge(J{"contains": false, "minContains": 0}, ui))
 	if depth3 {
 		add("d3.anyOf-in-allOf", merge(J{"allOf": A{J{"anyOf": A{merge(pa, J{"required": A{"b"}}), pb}}, J{"oneOf": A{pbReq, paStr}}}}, up))
 		add("d3.if-in-anyOf", merge(J{"anyOf": A{J{"if": merge(pa, J{"required": A{"a"}}), "then": pb}, J{"properties": J{"zz": lInt}, "required": A{"zz"}}}}, up))
